@@ -56,6 +56,33 @@ CATALOGUE = [
      'old': "        self.data_not_present_count = 0  # 221\n",
      'new': "        self.data_not_present_count = getattr(self, 'data_not_present_count', 0)  # 221\n",
      'note': 'an unused 221YYY count is carried into the next subset'},
+    # ---- reverts of the repairs of round 8 (the pinned histories in regress/ must raise the alarm again)
+    {'id': 'm-r8-c12-total-length-unchecked', 'props': ['C12'], 'file': D,
+     'old': "            if not info_only and not ignore_value_expectation \\\n                    and len(bufr_message.serialized_bytes) != bufr_message.length.value:\n",
+     'new': "            if False:\n",
+     'note': 'reverts 68d6a2f: the octets the sections cover are not compared with the declared total length'},
+    {'id': 'm-r8-c08-203000-compile-time-only', 'props': ['C08'], 'file': TC,
+     'old': "        super(CompilerState, self).cancel_new_refvals()\n        self.add_statement(StateMethodCall(get_func_name()))\n",
+     'new': "        super(CompilerState, self).cancel_new_refvals()\n",
+     'note': 'reverts 0d03e7d: 203000 is applied while compiling and not recorded for the run time'},
+    {'id': 'm-r8-c08-204-not-recorded', 'props': ['C08'], 'file': TC,
+     'old': "            'nbits_of_associated': list(state.nbits_of_associated),\n",
+     'new': "",
+     'note': 'reverts aa29e5f: the associated field widths in force are not recorded with a marker call'},
+    {'id': 'm-r8-c08-bitmap-of-zero-bits', 'props': ['C08'], 'file': D,
+     'old': "        if state.n_031031 == 0:\n            # The bits stand under a replication that was not executed: no bitmap is defined\n            return []\n",
+     'new': "",
+     'note': 'reverts 334076d (decoder side): a compiled template defines a bitmap from zero bits'},
+    {'id': 'm-r8-c17-multi-dot', 'props': ['C17'], 'file': MQ,
+     'old': "metadata_expr[1:].split('.', 1)", 'new': "metadata_expr[1:].split('.')",
+     'note': 'reverts 6b5f251: an expression with more than one dot raises ValueError'},
+    {'id': 'm-r8-c11-category-11-assert', 'props': ['C11'], 'file': DP,
+     'old': "        except AssertionError as e:\n", 'new': "        except ZeroDivisionError as e:\n",
+     'note': 'reverts b517414: an ordinary template under data category 11 aborts the scan with AssertionError'},
+    {'id': 'm-r8-c13-wired-flag-set-first', 'props': ['C13'], 'file': TD,
+     'old': "        if self._is_wired:\n            return\n\n        try:\n",
+     'new': "        if self._is_wired:\n            return\n        self._is_wired = True\n\n        try:\n",
+     'note': 'reverts bba653a in part: the wired flag is set before the work, so a second wire() after a failed one returns silently'},
     # ---- C11
     {'id': 'm-c11-advance-by-one', 'props': ['C11'], 'file': D,
      'old': "            idx_start += len(bufr_message.serialized_bytes)\n",
